@@ -152,7 +152,7 @@ Proof. constructor; cbn; try (intros c []); constructor. Qed.
 (* ---- every operation preserves the invariant *)
 Lemma sstep_inv s o : SInv s -> SInv (sstep s o).
 Proof.
-  intros H. destruct o as [spk dir|spk|mfpk blobpk spk name|mfpk|kpk kid|kpk|mfpk kpk|mpk name|mpk|ppk mpk pid spk|ppk|apk ppk];
+  intros H. destruct o as [spk dir|spk|mfpk blobpk spk name|mfpk|kpk kid|kpk|mfpk kpk|mpk name|mpk|ppk mpk pid spk|ppk|apk ppk|spk dir];
     cbn [sstep].
   - (* add stream, replacing one of the same directory *)
     set (s1 := match filter (fun x => snd x =? dir) (streams s) with (old, _) :: _ => delete_stream s old | [] => s end).
@@ -226,6 +226,12 @@ Proof.
     destruct H as [A1 A2 A3 A4 A5 A6 A7 A8 M1 M2 M3 M4].
     constructor; cbn [streams files blobs keys links mpss periods asets]; try assumption.
     apply refs_cons_child; [exact E1 | exact A8].
+  - (* rename: primary keys are untouched *)
+    destruct (existsb (fun f => f_stream f =? spk) (files s) || zmem dir (map snd (streams s))); [exact H|].
+    assert (Hpk : map fst (map (fun x : Z * Z => if fst x =? spk then (spk, dir) else x) (streams s)) = map fst (streams s)).
+    { rewrite map_map. apply map_ext. intros [a b]. cbn [fst]. destruct (a =? spk) eqn:E; cbn [fst]; lia. }
+    destruct H as [A1 A2 A3 A4 A5 A6 A7 A8 M1 M2 M3 M4].
+    constructor; unfold set_streams; cbn [streams files blobs keys links mpss periods asets]; try assumption; rewrite Hpk; assumption.
 Qed.
 
 Lemma fold_inv ops : forall s, SInv s -> SInv (fold_left sstep ops s).
